@@ -70,7 +70,11 @@ def replay(cfg, events):
         try:
             if op == "bind":
                 e["n"] = concrete(e["n"])
-                g.bind(e["p"], URIRef(e["n"]), override=e["override"], replace=e["replace"])
+                # "via": the same call made through ANOTHER facade of the same store (each has a namespace manager, and a memo, of its own)
+                target = g if e.get("via", "self") == "self" else Graph(store=store, identifier=g.identifier, bind_namespaces="none")
+                target.bind(e["p"], URIRef(e["n"]), override=e["override"], replace=e["replace"])
+            elif op == "reset":
+                nm.reset()
             elif op == "cq":
                 e["iri"] = concrete(e["iri"])
                 e["res"] = qres(lambda: nm.compute_qname(e["iri"], generate=e["generate"]), e["iri"])
@@ -109,7 +113,8 @@ def replay(cfg, events):
                 g.serialize(format=e["fmt"])
             elif op == "parse":
                 doc = "".join("@prefix %s: <%s> .\n" % (p, concrete(n)) for p, n in e["prefixes"]) + "<urn:s> <urn:p> <urn:o> .\n"
-                g.parse(data=doc, format="turtle")
+                target = g if e.get("via", "self") == "self" else Graph(store=store, identifier=g.identifier, bind_namespaces="none")
+                target.parse(data=doc, format=e.get("fmt", "turtle"))
             else:
                 e["raise"] = "UnknownOp"
         except Exception as ex:  # noqa: BLE001
